@@ -6,7 +6,6 @@ package choice
 
 import (
 	"hash/fnv"
-	"math/rand/v2"
 	"sync"
 )
 
@@ -21,7 +20,7 @@ type Rec struct {
 
 type Stream struct {
 	mu     sync.Mutex
-	rng    *rand.Rand
+	rng    uint64 // xorshift64* state (own implementation: no instrumented library code on the SUT's path)
 	replay []int
 	isRep  bool
 	pos    int
@@ -33,11 +32,29 @@ type Stream struct {
 }
 
 func NewSeeded(seed uint64) *Stream {
-	return &Stream{rng: rand.New(rand.NewPCG(seed, 0x9E3779B97F4A7C15^seed<<1)), KeepLabels: true, hash: 1469598103934665603}
+	st := seed*0x9E3779B97F4A7C15 ^ 0xD1B54A32D192ED03
+	if st == 0 {
+		st = 0x2545F4914F6CDD1D
+	}
+	s := &Stream{rng: st, KeepLabels: true, hash: 1469598103934665603}
+	for i := 0; i < 8; i++ {
+		s.next()
+	}
+	return s
 }
 
 func NewReplay(vals []int) *Stream {
 	return &Stream{replay: vals, isRep: true, KeepLabels: true, hash: 1469598103934665603}
+}
+
+//go:norace
+func (s *Stream) next() uint64 {
+	x := s.rng
+	x ^= x >> 12
+	x ^= x << 25
+	x ^= x >> 27
+	s.rng = x
+	return (x * 0x2545F4914F6CDD1D) >> 16
 }
 
 //go:norace
@@ -59,7 +76,7 @@ func (s *Stream) Choose(label string, n int) int {
 			}
 		}
 	} else {
-		v = s.rng.IntN(n)
+		v = int(s.next() % uint64(n))
 	}
 	s.pos++
 	if s.pos > MaxChoices {
